@@ -879,6 +879,18 @@ pub fn run_c08(tier: Tier) -> i32 {
     run_plan("C08", tier, RULE, base_assumptions(), &["pipelined-burst", "oneway-call", "burst-cut-mid-frame", "several-events-before-a-poll", "fault-with-other-connections-live"], plan)
 }
 
+/// C07 also runs the server: `Server::run` drops every pending receive future whenever another arm
+/// of its loop fires, and whatever helper it selects with must not complete a receive whose result
+/// it then throws away.  Two connections, calls cut mid-frame, short reads, delayed polls.
+pub fn c07_phases(tier: Tier) -> Vec<(&'static str, ScenCfg, u32)> {
+    let bursts: Vec<Vec<CK>> = vec![vec![CK::P], vec![CK::P, CK::P], vec![CK::B]];
+    let mk = |mc, calls, ev| ScenCfg { prop: "C07".into(), max_conns: mc, max_calls: calls, max_events: ev, bursts: bursts.clone(), faults: vec![], max_faults: 0, closes: false, cuts: true, short_reads: true, delay_polls: true, write_fault_on_stream: false };
+    match tier {
+        Tier::Quick => vec![("server/2conns/3calls/6events+dev", mk(2, 3, 6), 2)],
+        Tier::Thorough => vec![("server/2conns/4calls/7events+dev", mk(2, 4, 7), 2), ("server/3conns/3calls/7events+dev", mk(3, 3, 7), 2)],
+    }
+}
+
 pub fn run_c09(tier: Tier) -> i32 {
     let mut bursts = vec![vec![CK::P], vec![CK::F], vec![CK::P, CK::P]];
     let mk = |mc, calls, ev, nf, dp, b: &Vec<Vec<CK>>| ScenCfg { prop: "C09".into(), max_conns: mc, max_calls: calls, max_events: ev, bursts: b.clone(), faults: ALL_FAULTS.to_vec(), max_faults: nf, closes: false, cuts: false, short_reads: false, delay_polls: dp, write_fault_on_stream: false };
